@@ -112,7 +112,7 @@ class Evo:
         for n in ast.walk(lp):
             if isinstance(n, ast.Call):
                 for c in self.ctx.pta.internal_callees(f, n):
-                    if c.cls is self.cls and c is not f and c not in out:
+                    if self._is_mine(c) and c is not f and c not in out:
                         out.append(c)
         return out
 
@@ -126,11 +126,17 @@ class Evo:
                     n.value.func.attr in ('zeros', 'ones', 'empty'):
                 arrays.add(n.targets[0].id)
         best = None
+        score = -1
         for n in ast.walk(self.level_loop(f)):
             if isinstance(n, ast.Call):
                 for c in self.ctx.pta.internal_callees(f, n):
                     if c in cands and sum(1 for a in n.args if isinstance(a, ast.Name) and a.id in arrays) >= 1:
-                        best = c
+                        # the rule proper iterates / branches over the coordinates; swap helpers do not
+                        sc = sum(1 for x in ast.walk(c.node) if isinstance(x, (ast.For, ast.While))) * 10 + \
+                            sum(1 for x in ast.walk(c.node) if isinstance(x, ast.If)) + \
+                            sum(1 for a in n.args if isinstance(a, ast.Name) and a.id in arrays)
+                        if sc > score:
+                            best, score = c, sc
         return best if best is not None else (cands[0] if cands else None)
 
     def _private_callees(self, f: FuncInfo) -> List[FuncInfo]:
@@ -138,18 +144,56 @@ class Evo:
         for n in ast.walk(f.node):
             if isinstance(n, ast.Call):
                 for c in self.ctx.pta.internal_callees(f, n):
-                    if c.cls is self.cls and c not in res and c.name != '__init__':
+                    if self._is_mine(c) and c not in res and c.name != '__init__':
                         res.append(c)
         return res
 
+    def _dimension_attrs(self) -> Set[str]:
+        """Attributes of self used as the size of work arrays (np.zeros(self.N, ...)): the dimension."""
+        memo = getattr(self, '_dim_attrs', None)
+        if memo is not None:
+            return memo
+        out: Set[str] = set()
+        for f in self.cls.methods.values():
+            if f.kind != 'function':
+                continue
+            for n in ast.walk(f.node):
+                if isinstance(n, ast.Call) and isinstance(n.func, ast.Attribute) and \
+                        n.func.attr in ('zeros', 'ones', 'empty', 'ndarray', 'full') and n.args:
+                    a = n.args[0]
+                    if isinstance(a, ast.Attribute) and isinstance(a.value, ast.Name):
+                        out.add(a.attr)
+        self._dim_attrs = out
+        return out
+
+    def _is_mine(self, c: FuncInfo) -> bool:
+        """A private method of the class or a helper function of its module."""
+        return c.cls is self.cls or (c.cls is None and c.module is self.cls.module and c.kind == 'function')
+
     def _has_level_loop(self, f: FuncInfo) -> bool:
-        """A descent function: a top-level for loop whose body calls another private method of the class."""
+        """A descent function: a top-level for loop, not over the coordinates (range(N)), whose body calls a
+        non-trivial helper of the class / module (the node or number rule)."""
+        from ..paths import _is_trivial
+        dims = self._dimension_attrs()
         for st in f.node.body:
             if isinstance(st, ast.For):
+                it = st.iter
+                if isinstance(it, ast.Call) and isinstance(it.func, ast.Name) and it.func.id == 'range' and it.args:
+                    last = it.args[-1] if len(it.args) <= 2 else it.args[1]
+                    if isinstance(last, ast.Attribute) and last.attr in dims:
+                        continue          # a loop over the coordinates
+                    if isinstance(last, ast.Name):
+                        # a local alias of the dimension (n = self.numberOfFloatVariables)
+                        alias = [a for a in ast.walk(f.node) if isinstance(a, ast.Assign) and len(a.targets) == 1 and
+                                 isinstance(a.targets[0], ast.Name) and a.targets[0].id == last.id and
+                                 isinstance(a.value, ast.Attribute) and a.value.attr in dims]
+                        if alias:
+                            continue
                 for n in ast.walk(st):
                     if isinstance(n, ast.Call):
                         for c in self.ctx.pta.internal_callees(f, n):
-                            if c.cls is self.cls and c is not f:
+                            if self._is_mine(c) and c is not f and not _is_trivial(c) and \
+                                    any(isinstance(x, (ast.For, ast.While, ast.If)) for x in ast.walk(c.node)):
                                 return True
         return False
 
@@ -171,7 +215,7 @@ class Evo:
 
     def explorer(self, unroll: int = 1, **kw):
         heavy = {f for f in (self.node_fn, self.numbr_fn) if f is not None}
-        ex = self.ctx.explorer(inline=lambda f, st: f.cls is self.cls and f not in heavy, unroll=unroll,
+        ex = self.ctx.explorer(inline=lambda f, st: self._is_mine(f) and f not in heavy, unroll=unroll,
                                max_paths=30000, opaque=heavy, **kw)
         return ex
 
@@ -185,15 +229,72 @@ class Evo:
                 return a.attr
         raise AnalysisError(f'{self.forward.short}: level loop is not range(self.<density>)')
 
+    @staticmethod
+    def alias_map(f: FuncInfo) -> Dict[str, str]:
+        """Locals that name an attribute of self for the whole function: x = self.a / x: T = self.a / self.a = x
+        (single definition of x at the top level of the function)."""
+        if not f.param_names:
+            return {}
+        selfn = f.param_names[0]
+        out: Dict[str, str] = {}
+        counts: Dict[str, int] = {}
+        for n in ast.walk(f.node):
+            tg = []
+            if isinstance(n, ast.Assign):
+                tg = n.targets
+            elif isinstance(n, (ast.AnnAssign, ast.AugAssign)):
+                tg = [n.target]
+            elif isinstance(n, ast.For):
+                tg = [n.target]
+            for t in tg:
+                for x in ast.walk(t):
+                    if isinstance(x, ast.Name) and isinstance(x.ctx, ast.Store):
+                        counts[x.id] = counts.get(x.id, 0) + 1
+        for st in f.node.body:
+            tgt = val = None
+            if isinstance(st, ast.Assign) and len(st.targets) == 1:
+                tgt, val = st.targets[0], st.value
+            elif isinstance(st, ast.AnnAssign) and st.value is not None:
+                tgt, val = st.target, st.value
+            if tgt is None:
+                continue
+            if isinstance(tgt, ast.Name) and isinstance(val, ast.Attribute) and isinstance(val.value, ast.Name) and \
+                    val.value.id == selfn and counts.get(tgt.id, 0) == 1:
+                out[tgt.id] = val.attr
+            elif isinstance(tgt, ast.Attribute) and isinstance(tgt.value, ast.Name) and tgt.value.id == selfn and \
+                    isinstance(val, ast.Name) and counts.get(val.id, 0) == 1:
+                out[val.id] = tgt.attr
+        return out
+
+    def backing_field(self, name: str) -> str:
+        """For a property of the class whose getter returns one attribute: that attribute; else the name."""
+        g = self.cls.lookup(name)
+        if g is not None and g.is_property:
+            rets = [n for n in ast.walk(g.node) if isinstance(n, ast.Return) and n.value is not None]
+            if len(rets) == 1 and isinstance(rets[0].value, ast.Attribute) and \
+                    isinstance(rets[0].value.value, ast.Name) and g.param_names and \
+                    rets[0].value.value.id == g.param_names[0]:
+                from ..index import mangle
+                return mangle(self.cls.name, rets[0].value.attr)
+        return name
+
     def radix_field(self) -> str:
+        return self.backing_field(self._radix_field())
+
+    def _radix_field(self) -> str:
         """Attribute multiplied into the remainder in the digit extraction (in the descent or a digit helper)."""
         selfn = self.forward.param_names[0]
+        al = self.alias_map(self.forward)
         places = [self.level_loop(self.forward)] + [g.node for g in self.level_callees_fwd if g is not self.node_fn]
         for lp in places:
             for n in ast.walk(lp):
                 if isinstance(n, ast.AugAssign) and isinstance(n.op, ast.Mult) and isinstance(n.value, ast.Attribute) \
                         and isinstance(n.value.value, ast.Name) and n.value.value.id == selfn:
                     return n.value.attr
+                if isinstance(n, ast.AugAssign) and isinstance(n.op, ast.Mult) and isinstance(n.value, ast.Name) \
+                        and n.value.id in al and lp is not self.forward.node and \
+                        isinstance(n.target, ast.Name) and n.target.id not in al:
+                    return al[n.value.id]
                 if isinstance(n, ast.Assign) and isinstance(n.value, ast.BinOp) and isinstance(n.value.op, ast.Mult):
                     for side in (n.value.left, n.value.right):
                         if isinstance(side, ast.Attribute) and isinstance(side.value, ast.Name) and \
@@ -492,11 +593,18 @@ def rule_cube_bound(ctx: Ctx, rid: str):
     # --- the accumulation statement and the halving statement inside the level loop
     acc = None
     acc_loop = None
+    # local aliases of attributes of self (y = self.yValues)
+    aliases = set(Evo.alias_map(f))
+
+    def is_scratch(t) -> bool:
+        if isinstance(t, ast.Subscript):
+            t = t.value
+        if isinstance(t, ast.Attribute) and isinstance(t.value, ast.Name) and t.value.id == selfn:
+            return True
+        return isinstance(t, ast.Name) and t.id in aliases
     for st in lp.body:
         for n in ast.walk(st):
-            if isinstance(n, ast.AugAssign) and isinstance(n.op, (ast.Add, ast.Sub)) and \
-                    isinstance(n.target, ast.Subscript) and isinstance(n.target.value, ast.Attribute) and \
-                    isinstance(n.target.value.value, ast.Name) and n.target.value.value.id == selfn:
+            if isinstance(n, ast.AugAssign) and isinstance(n.op, (ast.Add, ast.Sub)) and is_scratch(n.target):
                 acc, acc_loop = n, st
     if not ctx.check(acc is not None, rid, f.short, f.loc(lp), 'accumulation y_i += r*u_i found in the level loop',
                      'the level loop of the forward descent has no accumulation into the scratch array',
@@ -509,6 +617,14 @@ def rule_cube_bound(ctx: Ctx, rid: str):
         for a, b in ((v.left, v.right), (v.right, v.left)):
             if isinstance(a, ast.Name) and isinstance(b, ast.Subscript) and isinstance(b.value, ast.Name):
                 rname, uarr = a.id, b.value.id
+            elif isinstance(a, ast.Name) and isinstance(b, ast.Name) and not isinstance(acc.target, ast.Subscript):
+                # whole-vector form  y += r * u : the array operand is the one created by np.zeros/np.ones
+                created = {st.targets[0].id for st in ast.walk(f.node) if isinstance(st, ast.Assign) and
+                           len(st.targets) == 1 and isinstance(st.targets[0], ast.Name) and
+                           isinstance(st.value, ast.Call) and isinstance(st.value.func, ast.Attribute) and
+                           st.value.func.attr in ('zeros', 'ones')}
+                if b.id in created and a.id not in created:
+                    rname, uarr = a.id, b.id
     ctx.check(rname is not None, rid, f.short, f.loc(acc), 'the increment is r * u[i] with a scalar step r',
               f'the increment of the accumulation is {ast.unparse(v)}, not step*orientation[i]',
               key=f'{rid}::{f.short}::increment-form')
@@ -555,7 +671,11 @@ def rule_cube_bound(ctx: Ctx, rid: str):
               f'accumulation (found {[ast.unparse(u[2]) for u in upd]}): |y_i| + r <= 1/2 is no longer inductive and '
               f'images can leave the cube', key=f'{rid}::{f.short}::halving')
     # --- closure of the orientation entries
-    funcs = [f] + ([e.node_fn] if e.node_fn else [])
+    funcs = [f]
+    for g in e.level_callees_fwd:
+        for h in [g] + e._closure(g):
+            if h not in funcs:
+                funcs.append(h)
     arrays: Dict[str, Set[str]] = {fn.short: set() for fn in funcs}
     arrays[f.short].add(uarr)
     blocks = {fn.short: _block_index(fn.node) for fn in funcs}
@@ -568,18 +688,25 @@ def rule_cube_bound(ctx: Ctx, rid: str):
         changed = False
         bad = []
         n_stores = 0
-        if e.node_fn is not None:
-            for n in ast.walk(f.node):
-                if isinstance(n, ast.Call) and e.node_fn in ctx.pta.internal_callees(f, n):
-                    for k, a_ in enumerate(n.args):
-                        pn = e.node_fn.param_names[1 + k] if 1 + k < len(e.node_fn.param_names) else None
+        for caller in funcs:
+            for n in ast.walk(caller.node):
+                if not isinstance(n, ast.Call):
+                    continue
+                for callee in ctx.pta.internal_callees(caller, n):
+                    if callee not in funcs or callee is caller:
+                        continue
+                    off = 1 if (callee.cls is not None and not callee.is_static) else 0
+                    bound = [(callee.param_names[off + k] if off + k < len(callee.param_names) else None, a_)
+                             for k, a_ in enumerate(n.args)]
+                    bound += [(kw.arg, kw.value) for kw in n.keywords if kw.arg in callee.param_names]
+                    for pn, a_ in bound:
                         if pn is None or not isinstance(a_, ast.Name):
                             continue
-                        if a_.id in arrays[f.short] and pn not in arrays[e.node_fn.short]:
-                            arrays[e.node_fn.short].add(pn)
+                        if a_.id in arrays[caller.short] and pn not in arrays[callee.short]:
+                            arrays[callee.short].add(pn)
                             changed = True
-                        if pn in arrays[e.node_fn.short] and a_.id not in arrays[f.short]:
-                            arrays[f.short].add(a_.id)
+                        if pn in arrays[callee.short] and a_.id not in arrays[caller.short]:
+                            arrays[caller.short].add(a_.id)
                             changed = True
         for fn in funcs:
             A = arrays[fn.short]
@@ -643,6 +770,11 @@ def rule_cube_bound(ctx: Ctx, rid: str):
                 if isinstance(x, ast.Subscript) and isinstance(x.value, ast.Name):
                     nonlocal_add(x.value.id)
                     return None
+                if isinstance(x, ast.IfExp):
+                    return rhs_ok(x.body, at_stmt, depth) or rhs_ok(x.orelse, at_stmt, depth)
+                if isinstance(x, ast.Name) and (x.id in A or x.id in created_here):
+                    nonlocal_add(x.id)
+                    return None          # a whole orientation array (vectorised form)
                 if isinstance(x, ast.Name):
                     return scalar_ok(x.id, at_stmt, depth)
                 return f'{ast.unparse(x)} is not built from 0, 1, -1, orientation entries, negation and products'
@@ -653,22 +785,41 @@ def rule_cube_bound(ctx: Ctx, rid: str):
                     A.add(arr)
                     changed = True
             visiting: Set[int] = set()
+            created_here = {st.targets[0].id for st in ast.walk(fn.node) if isinstance(st, ast.Assign) and
+                            len(st.targets) == 1 and isinstance(st.targets[0], ast.Name) and
+                            isinstance(st.value, ast.Call) and isinstance(st.value.func, ast.Attribute) and
+                            st.value.func.attr in ('zeros', 'ones')}
             for n in ast.walk(fn.node):
-                tgt = val = None
+                pairs = []
                 if isinstance(n, ast.Assign) and len(n.targets) == 1:
-                    tgt, val = n.targets[0], n.value
+                    t0 = n.targets[0]
+                    if isinstance(t0, (ast.Tuple, ast.List)):
+                        # a, b = b, a : element-wise; anything else cannot be matched
+                        if isinstance(n.value, (ast.Tuple, ast.List)) and len(n.value.elts) == len(t0.elts):
+                            pairs = list(zip(t0.elts, n.value.elts))
+                        else:
+                            pairs = [(t, None) for t in t0.elts]
+                    else:
+                        pairs = [(t0, n.value)]
                 elif isinstance(n, ast.AugAssign):
-                    tgt, val = n.target, n.value
-                if tgt is None or not (isinstance(tgt, ast.Subscript) and isinstance(tgt.value, ast.Name)
-                                       and tgt.value.id in A):
-                    continue
-                n_stores += 1
-                if isinstance(n, ast.AugAssign) and not isinstance(n.op, ast.Mult):
-                    bad.append((fn, n, f'{ast.unparse(n)}: orientation entries may only be multiplied'))
-                    continue
-                why = rhs_ok(val, n)
-                if why:
-                    bad.append((fn, n, f'{ast.unparse(n)}: {why}'))
+                    pairs = [(n.target, n.value)]
+                for tgt, val in pairs:
+                    is_elem = isinstance(tgt, ast.Subscript) and isinstance(tgt.value, ast.Name) and tgt.value.id in A
+                    # whole-array update of an orientation array (u *= w); the creation u = np.zeros(...) is
+                    # examined separately below
+                    is_whole = isinstance(tgt, ast.Name) and tgt.id in A and isinstance(n, ast.AugAssign)
+                    if not (is_elem or is_whole):
+                        continue
+                    n_stores += 1
+                    if val is None:
+                        bad.append((fn, n, f'{ast.unparse(n)}: unpacking into orientation entries from a non-tuple'))
+                        continue
+                    if isinstance(n, ast.AugAssign) and not isinstance(n.op, ast.Mult):
+                        bad.append((fn, n, f'{ast.unparse(n)}: orientation entries may only be multiplied'))
+                        continue
+                    why = rhs_ok(val, n)
+                    if why:
+                        bad.append((fn, n, f'{ast.unparse(n)}: {why}'))
         if not changed:
             break
     # array creations
@@ -688,7 +839,7 @@ def rule_cube_bound(ctx: Ctx, rid: str):
         ctx.ok(rid, f.short, f'{n_stores} stores into the orientation arrays '
                              f'{sorted(set().union(*arrays.values()))} (scalars '
                              f'{sorted(set().union(*checked_scalars.values()))}) stay within {{-1, 0, 1}}', f.loc())
-    ctx.floor(rid, 'stores into orientation arrays', n_stores, 12)
+    ctx.floor(rid, 'stores into orientation arrays', n_stores, 4)
 
 
 def _assigns(x, name) -> bool:
